@@ -278,6 +278,16 @@ def reopen (d : DD β) (pre : Bool) : DD β :=
   let d0 : DD β := { d with loc := fun _ => 0, marks := d.uc, snapIdx := lastMark d.uc d.top, pend := [] }
   if pre then d0.preload else d0
 
+/-- A clone of the snapshot at index `k` (`sync.Task.CloneReplica`): the files of `k` and of its
+    ancestors with their metadata are copied under a fresh replica, `UpdateCloneInfo` makes `k` the
+    parent of its empty head, the replica is reloaded without preload and `UpdateLUNMap` builds its
+    location map. -/
+def cloneOf (d : DD β) (k : Nat) : DD β :=
+  (({ d with files := fun i => if i ≤ k then d.files i else File.empty
+             top   := k + 1
+             uc    := fun i => if i ≤ k then d.uc i else false
+             rm    := fun i => if i ≤ k then d.rm i else false } : DD β).reopen false).lunmap
+
 /-- `revertDisk` to the snapshot at index `k`: a new head on top of it, then Reload(true). -/
 def revert (d : DD β) (k : Nat) : DD β :=
   let d0 : DD β := { d with
